@@ -5,7 +5,7 @@
    (Pattern, All, Any), passed through where the code passes the caller's environment through
    (relational rules, nthChild.ofRule, matches) — and returned on failure too. *)
 From Coq Require Import List NArith ZArith Bool Arith.
-From AG Require Import Base.Val Base.Sort Str.MetaVar Str.AnB Tree.Tree Match.MatchNode Rule.Rule.
+From AG Require Import Base.Val Base.Sort Str.MetaVar Str.AnB Tree.Tree Match.MatchNode Rule.Rule Rule.Kinds.
 Import ListNotations.
 
 Record ctx := {
@@ -314,8 +314,12 @@ Definition eval_fuel (c : ctx) : nat := 40 * size (c_root c) + 2000.
 
 Inductive core_res := CMatch (found : loc) (e : env) | CNoMatch | CFuel.
 
+(* RuleCore::new caches kinds = rule.potential_kinds(); do_match rejects a node of another kind first *)
+Definition core_kinds (c : ctx) (r : rule) : option (list N) := pk (eval_fuel c) (c_utils c) r.
+
 Definition core_match (c : ctx) (r : rule) (cons : list (str * rule)) (n : loc) : core_res :=
   let fuel := eval_fuel c in
+  if negb (match node_at c n with Some t => kind_in (kind t) (core_kinds c r) | None => true end) then CNoMatch else
   match eval fuel c (QRule r n) empty_env with
   | (EFound (Some m), e1) =>
       match constraints_loop fuel c cons (sort_kv (m_single e1)) (id_locs (c_root c)) e1 with
